@@ -129,9 +129,10 @@ type state struct {
 func (s scen) scenario() *dsched.Scenario {
 	src := s.source()
 	return &dsched.Scenario{
-		Name:    s.name(),
-		Horizon: 40,
-		Setup:   func() any { return &state{} },
+		Name:       s.name(),
+		Horizon:    40,
+		ParkInside: true,
+		Setup:      func() any { return &state{} },
 		Body: func(x *dsched.Exec, st any) {
 			stt := st.(*state)
 			stt.env = rt.NewEnv(map[string]any{
@@ -334,49 +335,49 @@ func Check(r *ev.Run, replay string) {
 		r.Set("traces_validated_against_impl", 1)
 		return
 	}
-	bound, limit := 2, 1500
+	bound, limit := 2, 30000
 	if r.Thorough() {
-		bound, limit = 2, 40000
+		bound, limit = 2, 60000
 	}
 	scs := scenarios(r.Thorough())
-	total, points, det := 0, 0, 0
-	minBound := bound
-	for i, s := range scs {
-		sc := s.scenario()
-		st := dsched.Explore(sc, bound, limit)
-		total += st.Executions
-		points += st.Points
-		det += st.DeterminismOK
-		r.Eval(st.Executions)
-		for k := range st.Outcomes {
-			r.Outcome(s.name() + "|" + k)
+	r.Sharded(16, func(shard, nShards int) {
+		total, points, det := 0, 0, 0
+		for i, s := range scs {
+			if i%nShards != shard {
+				continue
+			}
+			sc := s.scenario()
+			st := dsched.Explore(sc, bound, limit)
+			total += st.Executions
+			points += st.Points
+			det += st.DeterminismOK
+			r.Eval(st.Executions)
+			for k := range st.Outcomes {
+				r.Outcome(s.name() + "|" + k)
+			}
+			if i < 6 {
+				r.Sample(map[string]any{"scenario": s.name(), "executions": st.Executions, "bound_completed": st.BoundCompleted, "distinct_outcomes": len(st.Outcomes)})
+			}
+			if st.EngineError != "" {
+				r.EngineError(s.name() + ": " + st.EngineError)
+				break
+			}
+			if st.Capped {
+				r.Cap(fmt.Sprintf("%s: %d executions explored, bound %d completed", s.name(), st.Executions, st.BoundCompleted))
+			}
+			if st.Violation != "" {
+				r.Report(signature(s, st.Violation), s.name()+"\n  "+st.Violation+"\n  schedule "+fmt.Sprint(st.ViolationSched), replayIn{s, s.source(), st.ViolationSched}, st.Violation, "every value received exactly once, per-sender order, wait() values, nil after close")
+			}
 		}
-		if i < 6 {
-			r.Sample(map[string]any{"scenario": s.name(), "executions": st.Executions, "bound_completed": st.BoundCompleted, "distinct_outcomes": len(st.Outcomes)})
-		}
-		if st.EngineError != "" {
-			r.EngineError(s.name() + ": " + st.EngineError)
-			break
-		}
-		if st.Capped {
-			r.Cap(fmt.Sprintf("%s: %d executions explored, bound %d completed", s.name(), st.Executions, st.BoundCompleted))
-		}
-		if st.BoundCompleted < minBound {
-			minBound = st.BoundCompleted
-		}
-		if st.Violation != "" {
-			r.Report(signature(s, st.Violation), s.name()+"\n  "+st.Violation+"\n  schedule "+fmt.Sprint(st.ViolationSched), replayIn{s, s.source(), st.ViolationSched}, st.Violation, "every value received exactly once, per-sender order, wait() values, nil after close")
-		}
-	}
-	r.Set("states", points+total)
-	r.Set("transitions", points)
-	r.Set("traces_validated_against_impl", total)
+		r.Add("states", points+total)
+		r.Add("transitions", points)
+		r.Add("traces_validated_against_impl", total)
+		r.Add("executions", total)
+		r.Add("schedules_replayed_for_determinism", det)
+	})
 	r.Set("scenarios", len(scs))
-	r.Set("executions", total)
 	r.Set("preemption_bound", bound)
-	r.Set("lowest_bound_completed_over_scenarios", minBound)
-	r.Set("schedules_replayed_for_determinism", det)
-	r.Set("rule", fmt.Sprintf("every schedule with at most %d preemptions of each producer/consumer scenario (senders x receivers x buffer x messages x receive form x spawn form); every execution runs the real risor evaluation under the controlled scheduler; states = scheduling points visited, transitions = decisions taken, traces validated = complete executions judged", bound))
+	r.Set("rule", fmt.Sprintf("every schedule with at most %d preemptions of each producer/consumer scenario (senders x receivers x buffer x messages x receive form x spawn form); a task that reaches a send or receive that cannot complete yet may either wait at the scheduling point or enter the real operation and block inside it until another task's send, receive or close wakes it (the scheduler reads the Go channel's wait queue to know it is blocked), so both the ready-on-arrival and the blocked-then-woken path of the implementation are explored; every execution runs the real risor evaluation under the controlled scheduler; states = scheduling points visited, transitions = decisions taken, traces validated = complete executions judged", bound))
 }
 
 func signature(s scen, v string) string {
